@@ -179,6 +179,29 @@ def full_multi(cell):
         return classify_exception(e)
 
 
+def full_variant(req):
+    """a real run of a request shape outside the lattice: `short` = the observable named by its kind
+    alone (flavour defaults to total); `top` = an interpolation grid ending at `top` < 1 with a point
+    above it; outcome class, finiteness, and the output keyed by the name as given"""
+    import yadism
+
+    kind, pr, proj, tmc, short, top, x = req
+    name = kind if short else f"{kind}_total"
+    kin = dict(x=x, Q2=20.0)
+    if kind in XSKINDS:
+        kin["y"] = 0.5
+    grid = [float(v) * top for v in np.geomspace(1e-2, 1.0, 7)]
+    t = cards.theory(PTO=0 if kind != "FL" else 1, TMC=tmc)
+    o = cards.obs({name: [kin]}, prDIS=pr, ProjectileDIS=proj, interpolation_xgrid=grid, interpolation_polynomial_degree=2)
+    try:
+        out = yadism.run_yadism(t, o)
+        r = out[name][0]
+        fin = all(np.isfinite(v).all() and np.isfinite(e).all() for v, e in r.orders.values())
+        return "ok" if fin else "nonfinite"
+    except Exception as e:  # noqa
+        return classify_exception(e)
+
+
 def _init():
     from . import common
 
